@@ -88,5 +88,9 @@ def f1_f2(chk, repo):
 
 
 def run(chk, repo, tier):
+    from .c03 import r2
+    from .common import all_models
+
     f1_f2(chk, repo)
     r3(chk, repo)
+    r2(chk, repo, all_models(repo, chk))
